@@ -13,6 +13,12 @@ def drivers(vlib):
     return impl, model
 
 
+def save_drivers(vlib):
+    impl = vlib.build_cpp("drv_mpsave", ["drv_mpsave.cpp"] + vlib.repo_sources("src/msgpack/*.cpp", "src/common/*.cpp"))
+    model = vlib.build_model("mp")
+    return impl, model
+
+
 def hx(b):
     return b.hex() if b else "-"
 
@@ -294,3 +300,52 @@ def read_cases_for(data, rng, ops=None, pols=None, kinds=("m",)):
 def parse_ans(s):
     t = s.split(" ")
     return t
+
+
+# ---------------------------------------------------------------- value trees (typed save level)
+
+IKINDS = {"u8": (0, 1 << 8), "u16": (0, 1 << 16), "u32": (0, 1 << 32), "u64": (0, 1 << 64),
+          "s8": (-(1 << 7), 1 << 7), "s16": (-(1 << 15), 1 << 15), "s32": (-(1 << 31), 1 << 31), "s64": (-(1 << 63), 1 << 63)}
+
+
+def rand_tree(rng, depth=0):
+    """returns (tree text, abstract value in the Python decoder's representation)"""
+    k = rng.random()
+    if depth > 3:
+        k *= 0.6
+    if k < 0.25:
+        kind = rng.choice(list(IKINDS))
+        lo, hi = IKINDS[kind]
+        z = rng.choice([lo, hi - 1, 0, 1, 127, 128, 255, 256, -1, -32, -33, rand_int(rng)])
+        if not (lo <= z < hi):
+            z = rng.randrange(lo, hi)
+        return "i%s:%s" % (kind, shex(z)), z
+    if k < 0.30:
+        c = rng.choice("nTF")
+        return c, {"n": None, "T": True, "F": False}[c]
+    if k < 0.36:
+        b = rand_f32(rng)
+        return "f%x" % b, ("f32", b)
+    if k < 0.42:
+        b = rand_f64(rng)
+        return "d%x" % b, ("f64", b)
+    if k < 0.52:
+        s = bytes(rng.randrange(1, 256) for _ in range(rng.choice([0, 1, 5, 31, 32, 33, 255, 256, rng.randrange(0, 40)])))
+        return "s" + hx(s), s
+    if k < 0.62:
+        s = rand_bytes(rng, 300) if rng.random() < 0.1 else rand_bytes(rng)
+        return "b" + hx(s), ("bin", s)
+    if k < 0.82:
+        n = rng.choice([0, 1, 2, 3, 15, 16, 17]) if depth < 2 else rng.randrange(0, 3)
+        items = [rand_tree(rng, depth + 1) for _ in range(n)]
+        return "[" + ";".join(t for t, _ in items) + "]", [v for _, v in items]
+    n = rng.choice([0, 1, 2, 3, 15, 16, 17]) if depth < 2 else rng.randrange(0, 3)
+    if rng.random() < 0.7:
+        keys = [("s" + hx(b"k%d" % i), b"k%d" % i) for i in range(n)]
+    else:
+        kind = rng.choice(["u8", "u32", "s16", "s64", "u64"])
+        lo, hi = IKINDS[kind]
+        zs = rng.sample(range(max(lo, -1000), min(hi, 1000)), n) if n <= 20 else list(range(n))
+        keys = [("i%s:%s" % (kind, shex(z)), z) for z in sorted(zs)]
+    vals = [rand_tree(rng, depth + 1) for _ in range(n)]
+    return "{" + ";".join("%s=%s" % (k[0], v[0]) for k, v in zip(keys, vals)) + "}", ("map", [(k[1], v[1]) for k, v in zip(keys, vals)])
